@@ -40,7 +40,23 @@ type procCase struct{ Ops []op }
 
 var offsets = map[string]time.Duration{"past": -time.Second, "now": 0, "+300us": 300 * time.Microsecond, "+499us": 499 * time.Microsecond,
 	"+500us": 500 * time.Microsecond, "+1ms": time.Millisecond, "+10ms": 10 * time.Millisecond, "+1s": time.Second, "+5s": 5 * time.Second, "+90m": 90 * time.Minute, "+3h": 3 * time.Hour}
-var offsetNames = []string{"past", "now", "+300us", "+499us", "+500us", "+1ms", "+10ms", "+1s", "+5s", "+90m", "+3h"}
+var offsetNames = []string{"past", "now", "+300us", "+499us", "+500us", "+1ms", "+10ms", "+1s", "+5s", "+90m", "+3h", "never", "zero"}
+
+// never is the usual "do not run" sentinel: further away than a time.Duration can express.
+var never = time.Date(9999, 12, 31, 0, 0, 0, 0, time.UTC)
+
+// dueAt turns a due class into the item's scheduled time: an offset from now, the far-future sentinel, or the zero time
+// (long past).
+func dueAt(now time.Time, off string) time.Time {
+	switch off {
+	case "never":
+		return never
+	case "zero":
+		return time.Time{}
+	}
+	return now.Add(offsets[off])
+}
+
 var advNames = []string{"next", "next", "next-1ms", "next-400us", "next+1us", "100us", "1ms", "1s", "10s", "1h", "45m"}
 var points = []string{"loop.empty", "loop.empty", "loop.peeked", "loop.beforeTimer", "loop.timerFired", "execute.popped"}
 
@@ -252,7 +268,7 @@ func runProc(t *testing.T, c procCase) (out outcome, err error) {
 			var best time.Time
 			ok := false
 			for _, m := range live {
-				if m.it.due.After(time.Now()) && (!ok || m.it.due.Before(best)) {
+				if m.it.due.After(time.Now()) && !m.it.due.Equal(never) && (!ok || m.it.due.Before(best)) {
 					best, ok = m.it.due, true
 				}
 			}
@@ -261,7 +277,7 @@ func runProc(t *testing.T, c procCase) (out outcome, err error) {
 		var do func(o op)
 		doEnq := func(o op) *mitem {
 			nextID++
-			it := &item{key: o.Key, due: time.Now().Add(offsets[o.Off]), id: nextID}
+			it := &item{key: o.Key, due: dueAt(time.Now(), o.Off), id: nextID}
 			m := &mitem{it: it, enqStep: k.step, enqAt: time.Now()}
 			items[it.id] = m
 			return m
@@ -479,9 +495,11 @@ func runProc(t *testing.T, c procCase) (out outcome, err error) {
 			if !judge("final advance of 5h") {
 				return
 			}
-			if len(live) != 0 {
-				errs.Failf("items still live after everything was due: %d", len(live))
-				return
+			for _, m := range live {
+				if !m.it.due.Equal(never) {
+					errs.Failf("item %d (key k%d) is still live after everything was due", m.it.id, m.it.key)
+					return
+				}
 			}
 			do(op{Kind: "close"})
 		}
